@@ -12,505 +12,720 @@ Definition show_fres (r : fres) : string :=
   end.
 Definition check (rs : list rune) : string := digest (show_fres (format_res rs)).
 Definition full (rs : list rune) : string := show_fres (format_res rs).
-Eval vm_compute in ("<<<M320>>>" ++ check (runes_of_ascii "packet
-    /// triple
-    a1 { @rightPad ( ' ' ) @tag( 255
-)
-@lengthOf( zchar ) string MetaDataX	@calculatedFrom( ""CRC32"" ) // a // b
-`crlf
-line` ,u8 A @lengthOf( charz
-    ) ,
-    body ,@rightPad
-    ( '0'	)@lengthOf( charz ) match repeatCount as
-    Z9_ { 0123456789 : metadata // @lengthOf(
-,""" ++ [233]%N ++ runes_of_ascii "t" ++ [233]%N ++ runes_of_ascii """ : float  ,// packet A { u8 x, }
-""1"": Logon ,// " ++ [27880; 37322]%N ++ runes_of_ascii "
-},
-x_y_z`" ++ [233]%N ++ runes_of_ascii "`//x
-, @calculatedFrom(	""1"")match Header  as body
-    { 4294967296
-// @lengthOf(
-// @lengthOf(
-: MetaDataX
-,
-""abc"" //x
-: packetx
-    }
-, x_y_z @calculatedFrom( ""\" ++ [233]%N ++ runes_of_ascii """ ),i64_  @calculatedFrom(""abc"")`
-`,
-@rightPad //	t
-(
-)
-    //	t
-    char
-    float
-@lengthOf(	trueish )
-, @tag(42 ) @leftPad ( '\x00' ) @calculatedFrom(	""\n"") repeat string
-tag, //x
-} packet
-tag { repeat T u `
-` , string u128 @calculatedFrom( // `tick` ""quote"" 'q'
-""packet"" )`u8 x,` ,
-// trailing space 
-//x
-repeat
-    f64
-stringy `" ++ [233]%N ++ runes_of_ascii "` , u32 leftPad  @lengthOf(float ) , uint32	i8i8
-@lengthOf( f32a
-) , int@calculatedFrom( """ ++ [233]%N ++ runes_of_ascii "t" ++ [233]%N ++ runes_of_ascii """ )
-    ,
-    // c
-    @calculatedFrom( ""\n""
-) @leftPad
-    ( '\x00') @rightPad
-    ()
-    repeat
-pack  `// not a comment` , @calculatedFrom( ""1""	)
-    char[]  string_
-,f64 calculatedFrom
-    @lengthOf(	pack)  `tab	here`,@tag(00 ) int8 tag
-    ,
-} options { f32a
-= ""a	b"" _x = false ; _x = '0' o= false /// triple
-} packet falsey
-    /// triple
-    { @tag(
-    // trailing space 
-    007 ) string falsey,
-i64_
-@lengthOf(crc),repeat // c
-u128 body// packet A { u8 x, }
-, char[ 00]roots,/// triple
-metadata @lengthOf(packetx // `tick` ""quote"" 'q'
-)
-    `
-`	,// trailing space 
-string_
-BodyLength, @calculatedFrom(
-""it's"" ) repeat matchKey ,
-metadata
-    @calculatedFrom( ""abc""
-)// @lengthOf(
-,
-@tag( 255 )repeat
-Pad
-    {
-char[] packetx ,repeat o { int16 charz
-    // packet A { u8 x, }
-    ,packetx {
-i8
-//
-// packet A { u8 x, }
-zchar ,} ,char[10 //x
-]x
-, repeat zchar[ 0123456789 ]
-pack , // c
-} ,	int ,
-i8 asx ,
-}
-,}
-packet leftPad
-    { @tag(255
-    /// triple
-    )repeat uint16 msg_type  ,
-    // c
-    f32  trueish @calculatedFrom("""" )	`two words` // `tick` ""quote"" 'q'
-, @leftPad( '\x00' ) @lengthOf( leftPad
-) // a // b
-@lengthOf( asx // a // b
-)
-    //	t
-    zchar[ 1] roots @calculatedFrom(
-""abc""
-) ,pack @lengthOf(
-Z9_ ), @tag(
-65535) @lengthOf(Header
-    ) // c
-f64 tag , @tag( 1
-)repeat
-    u8x, match stringy// c
-as x { ""it's"" // " ++ [27880; 37322]%N ++ runes_of_ascii "
-: Z9_ ,7 : u128 ,
-""// no comment"" :trueish, 00
-:
-    //	t
-    f32a ,
-    [3,  1, 00]:	pack,""" ++ [28040; 24687]%N ++ runes_of_ascii """
-    // trailing space 
-    : options1	,
-// `tick` ""quote"" 'q'
-//x
-} ,
-repeat // `tick` ""quote"" 'q'
-u128 { repeat
-crc
-{ int16	int ,  }
-// c
-// @lengthOf(
-, }
-    // @lengthOf(
-    , @leftPad ( ' '  ) // trailing space 
-repeat
-zchar[ 255 ]
-// " ++ [128512]%N ++ runes_of_ascii " emoji
-// `tick` ""quote"" 'q'
-int `crlf
-line` ,@tag( 1 ) Logon roots
-    `// not a comment` , }
+Eval vm_compute in ("<<<M1557>>>" ++ check (runes_of_ascii "
+
+  // top
+  options  // c0
+	{ 	 // c1
+	FixedStringPadFromLeft=	// c3a
+  	// c3b
+true
+    // c4
+	;
+        // c5
+  FixedStringPadChar// c6
+  	=  // c7
+    '0'
+    // c8
+    	;
+	    // c9
+
+}	// c10
+
+	packet	// c11
+		Leg 	 // c12
+  	{ 
+    // c13
+repeat // c14
+  InSym93
+// c15
+{ 
+      // c16
+    zchar[
+        // c17
+      3	// c18
+
+	]
+// c19
+    Acct
+
+// c20
+    	, 
+      // c21
+
+  string  // c22
+	  Side2  // c23a
+		// c23b
+  , // c24
+	i32
+	Flags
+	,
+	// c27
+  f32  // c28
+      Note // c29a
+
+	// c29b
+      , 	 // c30a
+    // c30b
+i32
+// c31
+	msgKind	// c32a
+// c32b
+  	,
+
+} // c34
+    	, 
+// c35
+		f64  // c36a
+    // c36b
+Note
+    // c37
+
+,	// c38
+
+	uint16 
+  // c39
+    	Px  // c40
+  ,	// c41a
+	// c41b
+  } 
+      // c42
+  packet
+	// c43
+		Quote	// c44a
+
+// c44b
+
+	{	// c45a
+    // c45b
+  zchar[  // c46
+	  2]  // c48a
+	// c48b
+OrderId
+	// c49
+		,
+
+    } // c51
+
+  packet
+
+Ack	// c53
+	{	// c54a
+  	// c54b
+  repeat	// c55a
+    // c55b
+  string	// c56a
+// c56b
+		lastPx
+	,
+    // c58
+      zchar[  // c59a
+	  // c59b
+  4// c60
+] 
+    // c61
+  price , uint32
+
+OrderId // c65a
+// c65b
+  , 	 // c66
+  Quote  
+      // c67
+	  ,
+        // c68
+int8	// c69a
+  // c69b
+	  Acct
+    // c70
+  , 
+      // c71
+  } packet Fill 
+        // c74
+  {
+	// c75
+	repeat 
+
+// c76
+  	Leg // c77
+	,	// c78a
+
+  // c78b
+	@rightPad  // c79a
+
+	// c79b
+  ('0' 	 // c81a
+
+	// c81b
+  ) 	 // c82
+char[
+	// c83
+  11
+    // c84
+	]
+    // c85
+
+Note
+
+    ,// c87a
+		// c87b
+		f64
+// c88
+  Px  ,
+// c90
+      @rightPad  // c91a
+	  // c91b
+	(// c92
+
+'\x00' 
+        // c93
+      )// c94a
+
+	// c94b
+    char[ 	 // c95a
+	  // c95b
+
+  5// c96
+      ]// c97a
+    // c97b
+  	Flags// c98
+	,zchar[ // c100a
+	// c100b
+  	9 	 // c101a
+  // c101b
+    ] 	 // c102
+	  x // c103
+    ,	// c104a
+    // c104b
+string // c105a
+// c105b
+    msgKind 	 // c106
+	,
+}// c108
+	root
+    packet  // c110a
+
+	// c110b
+    Order 	 // c111a
+	// c111b
+
+	{ 	 // c112
+  	Leg 	 // c113
+  ,// c114a
+	// c114b
+  repeat	// c115
+	Ack	// c116
+	  , @rightPad
+    (  // c119a
+  	// c119b
+	  '\x00'// c120
+  ) 
+char[ 
+      // c122
+3
+	] // c124a
+  // c124b
+	  Side2
+	    // c125
+
+	,// c126
+
+	repeat  
+  // c127
+  char[
+// c128
+	1	// c129a
+		// c129b
+    ] 	 // c130
+seqNo
+        // c131
+
+  ,  // c132
+u16	// c133
+
+  clOrdID 
+// c134
+    ,// c135a
+// c135b
+	match  
+      // c136
+	clOrdID// c137
+as Body
+        // c139
+	  { 
+    // c140
+      198	// c141a
+  	// c141b
+      : 	 // c142
+Leg // c143a
+
+// c143b
+  	, // c144a
+  // c144b
+	23
+	:
+
+    // c146
+
+	Quote  // c147a
+  // c147b
+
+,	// c148
+	13// c149a
+  // c149b
+	  : 	 // c150a
+	// c150b
+  Ack  // c151
+      , 
+// c152
+
+159 
+    // c153
+    :  
+  // c154
+	Fill 	 // c155a
+  // c155b
+	, 
+// c156
+  } 
+, u32
+venue  // c160
+
+@calculatedFrom( // c161a
+    // c161b
+""CRC32""	// c162
+		) // c163a
+  // c163b
+	,
+// c164
+    } // c165a
+		// c165b
 ")).
-Eval vm_compute in ("<<<M213>>>" ++ check (runes_of_ascii "
-packet body
-{@tag(
-    3 ) i16 options1 ,  repeat string
-body ,
-@calculatedFrom( // trailing space 
-""a\""b""
-) x_y_z @calculatedFrom(
-""a\\"") `it's` , match o as BodyLength
-{ 00
-:
-pack,
-1 : u	,
-[255,255,""// no comment"" ]
-    : Packet	[ 65535 ] :  i64_ , }
-// @lengthOf(
-//
-,// a // b
-@calculatedFrom( // c
-""" ++ [233]%N ++ runes_of_ascii "t" ++ [233]%N ++ runes_of_ascii """ ) string// `tick` ""quote"" 'q'
-len `tab	here`,
-    @tag( 0123456789
-) repeat
-    //	t
-    matchKey A `a\`,
-    i8i8 Packet , stringy @calculatedFrom( ""x y"" ) ,f32a As
-`crlf
-line` ,u128{ repeat
-    int  {
-    repeat
-    zchar[255 ] a1`{ , }`
-,
-// a // b
-// a // b
-match calculatedFrom as body//	t
-{
-    0 // " ++ [27880; 37322]%N ++ runes_of_ascii "
-:body	42
-    // c
-    :tag // @lengthOf(
-, ""1""	:packetx , ""it's"":  roots,}, i32 u @calculatedFrom(// " ++ [128512]%N ++ runes_of_ascii " emoji
-""a\\"" ) ,
-}	,
-string_`crlf
-line`, _x  , repeat lengthOf crc ,	}, // " ++ [27880; 37322]%N ++ runes_of_ascii "
-}
-MetaData rootA {
-uint8	tag , string	Z9_ `u8 x,` ,
-    f64 float ,
-    Logon
-falsey`a\`
-, } packet len{  char[] u	`// not a comment`, char[] Header
-`// not a comment`	, string charz
-// a // b
-/// triple
-`tab	here` ,
-    //
-    @leftPad
-    // packet A { u8 x, }
-    ( )@lengthOf(
-a1)
-// " ++ [128512]%N ++ runes_of_ascii " emoji
-//x
-len
-crc, @leftPad ( ' ' )Packet @calculatedFrom(""" ++ [128512]%N ++ runes_of_ascii """ ) , repeat uint8 a1
-, match
-    T as As { ""packet"": Logon , [	""" ++ [128512]%N ++ runes_of_ascii """
-    , 0 ]
-: i64_ , [ ""packet"" , 7
-    ]
-    : string_ ,
-} , repeat//
-zchar[
-007 ] zchar `{ , }` ,
-    }
-")).
-Eval vm_compute in ("<<<M149>>>" ++ check (runes_of_ascii "// trailing space 
-packet
-    charz {	@calculatedFrom( ""1""
-)match x
-as tag
-    {	[
-7 , // @lengthOf(
-0
-, 65535	,
-    // `tick` ""quote"" 'q'
-    ""it's""/// triple
-,0
-    ,
-""x y"", 255 ] :tag  , [ ""1"" // a // b
-, //	t
-3  , 007, // " ++ [27880; 37322]%N ++ runes_of_ascii "
-255 ,  ""x y""
-    // @lengthOf(
-    ] :pack ,[""" ++ [233]%N ++ runes_of_ascii "t" ++ [233]%N ++ runes_of_ascii """	, 7  , 10  , 3
-, 0
-    , ""a\""b"" ] :
-    // packet A { u8 x, }
-    leftPad, [ 65535
-    // " ++ [27880; 37322]%N ++ runes_of_ascii "
-    ,
-""x y""]
-: chars [ ""\n"" ,65535 , ""a\\""
-] :
-A	, ""\n"" :
-    lengthOf , } ,
-match string_
-    as	i8i8 { 7 :msg_type , // c
-""abc"" :
-tag ,""a\""b"" :metadata, 255
-    : matchKey	,
-    [""CRC32"" ,""1""
-// " ++ [27880; 37322]%N ++ runes_of_ascii "
-// " ++ [128512]%N ++ runes_of_ascii " emoji
-, 007 , ""packet"" ,""a\\"" /// triple
-,	""a\""b""
-    // " ++ [128512]%N ++ runes_of_ascii " emoji
-    , 007 , 4294967296 ] : lengthOf , }
-,uint16
-pack , string Pad@lengthOf( o ) `say ""hi""` ,repeat i8 body
-    ,
-@lengthOf( //x
-crc ) float64 body `// not a comment`
-, repeat rootA { int16 x_y_z `tab	here` ,
-falsey @calculatedFrom( ""{,}"" ), trueish @lengthOf(
-crc) `{ , }` , }
-, match Pad as
-Header
-{
-    4294967296: Header,""\n"" :msg_type,""a	b"" :
-    x_y_z
-    , }
-,
-    //	t
-    Logon
-, } 	 ")).
-Eval vm_compute in ("<<<M1749>>>" ++ check (runes_of_ascii "
+Eval vm_compute in ("<<<M1620>>>" ++ check (runes_of_ascii "
 
-  root
-    packet
+  packet
 
-    packetx 
-{@tag(
+    _x
 
-0 )  char[ 00 
-]
-    Z9_ 
-,
-// a // b
-falsey 
-      // c
 {
+leftPad
+	`it's`	,
 
     match
-x
-    as  options1
-{
-[	//	t
-  	42
+Logon
 
-    , 007]:
-	uint8x
-} ,	uint8
+as
+    matchKey
+	{
+	""packet""
+    :  stringy ,
 
-falsey 
-`crlf
-line`	, } , f64
+    3
 
+    :
+u,//
+  ""1"" :
 Pad
-,
-	@tag(
-	7
-)string
-Logon // " ++ [27880; 37322]%N ++ runes_of_ascii "
-	`a\`  ,
-@lengthOf(
-	lengthOf	//	t
-	)char[
-3 ]  
-  // " ++ [27880; 37322]%N ++ runes_of_ascii "
-  //
-	  calculatedFrom
+	}	,
 
-    @calculatedFrom(
-    """ ++ [28040; 24687]%N ++ runes_of_ascii """	) , char[]
-T 
-,//x
-  	@tag(
+    float32 Z9_	@lengthOf( i8i8
 
-42 
-)@leftPad(
+    ) `" ++ [233]%N ++ runes_of_ascii "`
 
-    )
-char[]
-
-trueish
-    @calculatedFrom(
-	""`tick`""
-) ,match
-// `tick` ""quote"" 'q'
-	uint8x
-	as
-	pack  {
-[ ""abc""	,
-
-""1""
-    , ""packet""
-
-    ,
-// `tick` ""quote"" 'q'
-
-	// `tick` ""quote"" 'q'
-1,
-""a\""b"" ] :As ,
-
-    """ ++ [28040; 24687]%N ++ runes_of_ascii """ :trueish
-
-    ,
+// " ++ [27880; 37322]%N ++ runes_of_ascii "
+  ,@tag( 3  )
+	match 
+  //	t
+    As as Pad 
+{""""
+:chars,""x y""	//
+    :	i64_ ,
 	}
+    , @calculatedFrom(  ""it's""  // c
+	)
+	@leftPad
+(
+    ' ')
+
+zchar[ 
+0123456789
+
+]falsey
+    , match 
+A as	packetx
+    { [  42 ]
+:
+
+matchKey 	 // c
+  , }  // `tick` ""quote"" 'q'
+
 	,
-    } packet /// triple
-	charz  {repeat
-	Z9_ 
-{
-    Pad {
+@leftPad (
 
-match len
-	as 
-string_ {
-        // a // b
-	4294967296
-	:
-    msg_type  , [ 
-""// no comment"" ]	: 
-u ,	}
-,
-	}
-	,zchar[
-	65535
+    ' ') match
+x
+    // c
+	as a1
 
+    {
+
+""packet"" 	 //x
+    :  a1
+    ,	10 :
+pack  ""{,}""
+    :
+	u8x  // a // b
+	,
+[ 007 , 
+00 // trailing space 
 ]
 
-    As@lengthOf(	//x
-      string_
-)	,
+    : trueish, 
+""x y"":	pack 	 //	t
+  ,
 
+    """ ++ [233]%N ++ runes_of_ascii "t" ++ [233]%N ++ runes_of_ascii """ :matchKey ,
 }
+,
+@leftPad 
+(
+	'0' ) uint8x
 
+u
 ,
-	} ")).
-Eval vm_compute in ("<<<M188>>>" ++ check (runes_of_ascii "// packet A { u8 x, }
-root
-    packet
-    leftPad { @calculatedFrom(
-    //x
-    ""`tick`"" )	@rightPad( )
-    // " ++ [128512]%N ++ runes_of_ascii " emoji
-    string_
-// `tick` ""quote"" 'q'
-// a // b
-@lengthOf(	tag
-    ) `a\` ,i64 T
-    `" ++ [233]%N ++ runes_of_ascii "`,//	t
-}
-packet
-Pad// @lengthOf(
-{ @lengthOf(	float ) char[] x@calculatedFrom(
-    ""a\""b"")
-    , // trailing space 
-@tag(
-    0// " ++ [128512]%N ++ runes_of_ascii " emoji
-) // " ++ [27880; 37322]%N ++ runes_of_ascii "
-repeatCount// packet A { u8 x, }
+zchar[
+	3 // a // b
+	] 
+//	t
+  	u `` ,
+
+@rightPad
+	( 
+' '
+	) repeat	_x
+	``  ,  }MetaData
+
+Foo{ a1 Z9_
 ,
-repeat rootA{
-_x
-    ,zchar[3 ]roots
-    /// triple
-    `crlf
-line` ,
-}
-,
-/// triple
-// a // b
-match
-    metadata as BodyLength
-    { [
-    // c
-    10 , 10 , ""a\""b"", """"	, ""\n""
-,  ""a\\"" , 4294967296]  :
-    u
-, }
-, repeat	i64_ Packet `" ++ [28040; 24687; 31867; 22411]%N ++ runes_of_ascii "`
-,@tag( // packet A { u8 x, }
-65535)
-    char[] float`it's`
-, char[7 ]
-    x @calculatedFrom( ""{,}"" ),
-    }MetaData leftPad// a // b
-{ body rootA
-`crlf
+
+options1  T,
+
+u32
+    u8x	`crlf
 line`
-, int64
-msg_type
-`doc`
-    , // @lengthOf(
-}
-")).
-Eval vm_compute in ("<<<M1832>>>" ++ check (runes_of_ascii "options {
-    Foo = ""// no comment"";
-}
+,  metadata
+falsey
+	, lengthOf
+x_y_z , }
 
-packet float {
-}
+packet
+calculatedFrom
+{
+@tag(
+3 )string
 
-packet len {
-    @lengthOf(_x)
-    stringy {
-        metadata @calculatedFrom(""a\\""),
-    },
-}
+    A
 
-packet asx {
-    @tag(0)
-    repeat float64 A `say ""hi""`,
-    //
-    // trailing space 
-    i16 int `say ""hi""`,
-    @calculatedFrom(""" ++ [128512]%N ++ runes_of_ascii """)
-    lengthOf Header `two words`,
-    f32a zchar,
-    @rightPad('0')
-    repeat string_ chars ``,
-    @tag(4294967296)
-    @calculatedFrom(""a	b"")
-    repeat msg_type,
-    @leftPad()
-    repeat f64 _x,
-    repeat As {
-        Logon @lengthOf(calculatedFrom) `two words`,
-        repeat u64 o `u8 x,`,
-    },
-    @calculatedFrom(""packet"")
-    repeat uint8 u,
-}
+, match leftPad as
+	a1 
+{	//	t
+0123456789  :
+	calculatedFrom	,	}
+,
+match
+crc //
 
-packet uint8x {
-    @leftPad('0')
-    //	t
+as
+	body {00: _x ,	}
+,
+
+o@calculatedFrom(""x y"") 
+  //
+    // " ++ [128512]%N ++ runes_of_ascii " emoji
+	,
+
+    }  packet
+
+    T
+
+    { } packet 
+Logon
+    { @leftPad
+( 	 // @lengthOf(
+    '\x00') As	@calculatedFrom(
+
+""a	b""
+    )
+    `line1
+line2`
+
+    ,
+
+pack lengthOf	// `tick` ""quote"" 'q'
+    	, }	// `tick` ""quote"" 'q'")).
+Eval vm_compute in ("<<<M282>>>" ++ check (runes_of_ascii "// a // b
+packet stringy	{
+string zchar ,
+    repeat T
+, match
+u
+as  charz {
+007
     //x
-    zchar[255] metadata `a\`,//
-}// `tick` ""quote"" 'q'")).
-Eval vm_compute in ("<<<M1351>>>" ++ check (runes_of_ascii "options {
+    :
+//	t
+// @lengthOf(
+float// trailing space 
+,""\" ++ [233]%N ++ runes_of_ascii """ : Logon ""a	b"":
+//	t
+//	t
+pack, } , match uint8x as
+    // " ++ [27880; 37322]%N ++ runes_of_ascii "
+    roots
+{
+1
+    // `tick` ""quote"" 'q'
+    : len
+,	}
+//x
+// " ++ [27880; 37322]%N ++ runes_of_ascii "
+, }packet zchar {	roots options1
+    //x
+    `// not a comment` , int64 As
+,
+    i16 float
+    @lengthOf( falsey
+    // " ++ [27880; 37322]%N ++ runes_of_ascii "
+    ) `a\`
+    , int64 msg_type `tab	here`
+, @tag(0
+    // `tick` ""quote"" 'q'
+    ) repeat uint8x ,
+    @lengthOf(x
+    ) repeat metadata
+    , zchar[ 0 ]	int , uint64
+    zchar ,zchar[7 // " ++ [27880; 37322]%N ++ runes_of_ascii "
+]
+msg_type
+,
+@calculatedFrom(
+/// triple
+// " ++ [27880; 37322]%N ++ runes_of_ascii "
+""" ++ [28040; 24687]%N ++ runes_of_ascii """ ) crc
+, }
+root packet zchar { repeat
+leftPad,
+} packet
+A{
+@lengthOf(
+    string_ )	x@lengthOf( options1) `two words`,  string
+len ,	}packet	falsey{ i64_ @calculatedFrom(	""{,}"" ) , repeat
+string chars
+, zchar[ 7]calculatedFrom
+, Header
+    { char u`two words`, repeat char[] // c
+tag
+    `say ""hi""`	, Z9_
+    @lengthOf(
+T ) `line1
+line2` , } , msg_type @calculatedFrom( ""// no comment""
+    ) , @rightPad (// packet A { u8 x, }
+'\x00' )
+@lengthOf( asx )
+falsey
+,
+    } // packet A { u8 x, }")).
+Eval vm_compute in ("<<<M174>>>" ++ check (runes_of_ascii "
+root packet asx { leftPad
+    {u128 @calculatedFrom( ""1""
+) , //x
+}
+, lengthOf // packet A { u8 x, }
+@calculatedFrom( """ ++ [128512]%N ++ runes_of_ascii """ ) `a\`
+, i64 // `tick` ""quote"" 'q'
+Packet @lengthOf(  calculatedFrom ) , @calculatedFrom(
+""" ++ [233]%N ++ runes_of_ascii "t" ++ [233]%N ++ runes_of_ascii """ ) stringy	a1 `doc` // `tick` ""quote"" 'q'
+, @rightPad
+    (
+    // a // b
+    )
+    // c
+    a1
+    `a\`
+,  char
+Header @lengthOf(
+    x )`say ""hi""`, uint8x
+Z9_ `tab	here` ,  }
+options
+    {
+    calculatedFrom// packet A { u8 x, }
+= 0}	packet metadata {@leftPad ( '\x00'	) f32
+    pack
+//	t
+//
+, @tag( 65535 ) u32 uint8x @lengthOf( repeatCount) ``,MetaDataX	{ repeat options1 , match
+matchKey as len { """ ++ [128512]%N ++ runes_of_ascii """:
+    u8x	, 1 :
+zchar
+, /// triple
+[ ""a\\""
+    ,
+    ""x y"" ] : charz 0
+    :
+    x_y_z
+    //
+    ,[// trailing space 
+4294967296// `tick` ""quote"" 'q'
+]: asx  , [/// triple
+""a\""b"" , ""\n"" , ""\" ++ [233]%N ++ runes_of_ascii """ ,10 ] : _x ,
+    }	, uint8  metadata
+@lengthOf(float
+) ,
+zchar[
+    255] i8i8 , },
+    }root  packet
+f32a
+    { }")).
+Eval vm_compute in ("<<<M1514>>>" ++ check (runes_of_ascii "options {
+    FixedStringPadFromLeft = true;
+    FixedStringPadChar = '0';
+}
+
+packet Leg {
+    repeat InSym93 {
+        zchar[3] Acct,
+        string Side2,
+        i32 Flags,
+        f32 Note,
+        i32 msgKind,
+    },
+    f64 Note,
+    uint16 Px,
+}
+
+packet Quote {
+    zchar[2] OrderId,
+}
+
+packet Ack {
+    repeat string lastPx,
+    zchar[4] price,
+    uint32 OrderId,
+    Quote,
+    int8 Acct,
+}
+
+packet Fill {
+    repeat Leg,
+    @rightPad('0')
+    char[11] Note,
+    f64 Px,
+    @rightPad('\x00')
+    char[5] Flags,
+    zchar[9] x,
+    string msgKind,
+}
+
+root packet Order {
+    Leg,
+    repeat Ack,
+    @rightPad('\x00')
+    char[3] Side2,
+    repeat char[1] seqNo,
+    u16 clOrdID,
+    match clOrdID as Body {
+        198 : Leg,
+        23 : Quote,
+        13 : Ack,
+        159 : Fill,
+    },
+    u32 venue @calculatedFrom(""CR\
+    C32""),
+}")).
+Eval vm_compute in ("<<<M1428>>>" ++ check (runes_of_ascii "
+// a // b
+
+packet
+    stringy	{ @tag(3
+	) 	 // trailing space 
+  i64 
+len ,@calculatedFrom(
+
+    ""1""
+
+    )
+char[0
+]
+    x
+@lengthOf( 
+Foo 
+)  ,
+
+    @calculatedFrom(""""
+) body
+	    // c
+  // " ++ [128512]%N ++ runes_of_ascii " emoji
+@lengthOf(
+
+calculatedFrom )  `line1
+line2`
+
+,	@calculatedFrom(""it's""	// " ++ [128512]%N ++ runes_of_ascii " emoji
+)  // packet A { u8 x, }
+	match falsey
+
+// packet A { u8 x, }
+as
+    u8x{
+[
+""" ++ [128512]%N ++ runes_of_ascii """ 
+, 	 // a // b
+	  42 ,
+
+1 
+,
+
+10
+]:
+
+    Header
+
+    ,
+}	, 
+        // trailing space 
+	// `tick` ""quote"" 'q'
+	}
+MetaData	// " ++ [128512]%N ++ runes_of_ascii " emoji
+
+stringy{f32a
+u128 
+`{ , }`
+
+    ,	char[ // a // b
+      10 
+]
+
+    u128	,
+chars
+	_x
+,
+    zchar[65535  // trailing space 
+] /// triple
+  falsey
+`{ , }`, _x
+
+i64_ ,
+
+int32
+	Packet`crlf
+line`, }
+MetaData
+
+lengthOf 
+{} 
+// trailing space 
+ 
+")).
+Eval vm_compute in ("<<<M1363>>>" ++ check (runes_of_ascii "options {
     StringPrefixLenType = u8;
     ArrayPrefixLenType = u32;
     FixedStringPadFromLeft = true;
@@ -546,39 +761,50 @@ root packet Reject {
         183 : Logout,
         40 : Order,
     },
-    u16 Ref @calculatedFrom(""CRC32""),
+    u16 Ref @calculatedFrom(""CR\
+C32""),
 }
 ")).
-Eval vm_compute in ("<<<M342>>>" ++ check (runes_of_ascii "root packet Z9_	{  repeat i8i8 int`// not a comment`
-,	uint8x
-    // c
-    , f64 i8i8  `tab	here` ,@tag(
-3 ) @tag( 3 ) @tag( /// triple
-10
-// trailing space 
-// trailing space 
-) repeat int{ MetaDataX // " ++ [27880; 37322]%N ++ runes_of_ascii "
-,} , @tag( 10
-    ) int8
-    pack@lengthOf(x
-    ), Logon ,	@tag( 00
-) repeat
-rootA
-uint8x ,  @calculatedFrom( ""\n"" // a // b
-) // `tick` ""quote"" 'q'
-@lengthOf( len )
-// @lengthOf(
-// `tick` ""quote"" 'q'
-BodyLength  { matchKey f32a
-//x
-// `tick` ""quote"" 'q'
-`say ""hi""` ,} ,  char[] leftPad `{ , }` ,
-@lengthOf( float )match repeatCount as	o { 255 : matchKey ,
+Eval vm_compute in ("<<<M206>>>" ++ check (runes_of_ascii "//x
+root
     // " ++ [128512]%N ++ runes_of_ascii " emoji
-    00:	A 007 :
-    options1 } , }
+    packet
+// `tick` ""quote"" 'q'
+/// triple
+float{options1 A
+,@tag(
+42 )
+    u8x{ tag //x
+@calculatedFrom(	""\" ++ [233]%N ++ runes_of_ascii """) // packet A { u8 x, }
+`tab	here` ,
+    }
+    , int16 asx ,
+    @lengthOf( o
+    )
+@rightPad( ) repeat int
+/// triple
+/// triple
+Logon,@calculatedFrom(""// no comment"" )  @leftPad('\x00')
+    @rightPad('0'	)	zchar[ 65535 //x
+] o `
+`
+    ,
+    repeat As{ //x
+repeat uint16 o ,repeat
+char[ // trailing space 
+1
+    ]o ,
+u128
+metadata	, repeat char[7	] Header ,
+    } , @tag( 0123456789
+    ) a1 tag
+    , float32 asx ,
+    repeat // packet A { u8 x, }
+len
+``
+    ,}
 ")).
-Eval vm_compute in ("<<<M1333>>>" ++ check (runes_of_ascii "options {
+Eval vm_compute in ("<<<M1342>>>" ++ check (runes_of_ascii "options {
     LittleEndian = false;
     ArrayPrefixLenType = u8;
     FixedStringPadFromLeft = true;
@@ -611,219 +837,205 @@ root packet Order {
     u32 seqNo @calculatedFrom(""CRC32""),
 }
 ")).
-Eval vm_compute in ("<<<M1874>>>" ++ check (runes_of_ascii "options {
-	LittleEndian
-=
-	true
-	;
+Eval vm_compute in ("<<<M1349>>>" ++ check (runes_of_ascii "options {
+    ArrayPrefixLenType = u64;
+    FixedStringPadFromLeft = true;
+    FixedStringPadChar = '0';
+}
+packet Quote {
+}
+packet Ack {
+    repeat InNote66 {
+        u8 pad0,
+    },
+}
+packet Reject {
+}
+root packet Order {
+    Quote,
+    repeat Reject,
+    string venue,
+    string seqNo,
+    uint32 Ref,
+    u16 lastPx,
+    u32 clOrdID @lengthOf(Body),
+    match lastPx as Body {
+        190 : Reject,
+        186 : Quote,
+        22 : Ack,
+    },
+    u16 Flags @calculatedFrom(""CR\
+C32""),
+}
+")).
+Eval vm_compute in ("<<<M140>>>" ++ check (runes_of_ascii "
+root packet int{	repeat
+    float tag , char[] roots
+, @lengthOf( repeatCount ) @lengthOf( // packet A { u8 x, }
+rootA)
+uint16 o
+    `tab	here` ,
+    //	t
+    i16 Pad `line1
+line2` , Pad{match Pad as
+    _x
+{ [00]
+:
+    Z9_
+, } ,} , repeat zchar calculatedFrom`a\` ,	f64 // @lengthOf(
+charz
+    //x
+    ,Pad
+    Foo,@calculatedFrom(
+    """ ++ [28040; 24687]%N ++ runes_of_ascii """ )
+    charz
+    @lengthOf( charz ), @lengthOf(
+    rootA ) match o
+as body {00 :
+x_y_z// " ++ [128512]%N ++ runes_of_ascii " emoji
+} ,}
+")).
+Eval vm_compute in ("<<<M1331>>>" ++ check (runes_of_ascii "packet	Frame
 
-    StringPrefixLenType =	u64  ; ArrayPrefixLenType
+{  u8 HK 
+,  u8
 
-= 
+BK, u8
+    TK
+,match 
+HK as
+
+Hdr
+{	1
+
+    :
+    HdrA 
+,
+
+2 : HdrB
+, },	match	BK
+as
+
+Body{  1	:
+
+    BodyA ,  2
+:
+
+    BodyB 
+,}
+	, 
+match
+
+    TK as Trl {
+	1 : TrlA
+
+,} , } packet HdrA { u8 a  ,
+}packet
+    HdrB 
+{ 
 u16
+    b
+	,  }packet BodyA{ u32 c ,
+}packet
+    BodyB
+	{
 
-; 
-FixedStringPadFromLeft	=	false
+    u64
+d , }
+    packet
+TrlA  {  u8
+e,} root
+	packet
+Msg
 
-; 
-FixedStringPadChar
-
-=  ' '; 
-}
-packet
-Logon{zchar[
-5
-
-    ] Side2 
+{ Frame
 ,
-}
-    root	packet  Logout
-{
-
-    repeat
-i64
-Tail
-
-    ,
-	Logon
-    ,
-	repeat
-
-i16
-
-    OrderId,
-
-    char[]venue
-,
-	uint64
-
-    x, 
-repeat
-i16
-
-count	,
-
     u8
 
-Flags,match Flags
-as
-Body {
-25
-: Logon
-
-    ,
-}
-, u16
-	Qty @calculatedFrom(
-    ""CR\
-C32""
-	)	,
-
-    }")).
-Eval vm_compute in ("<<<M1365>>>" ++ check (runes_of_ascii "
-options
-
-{LittleEndian
-=true	; StringPrefixLenType= u64 ;
-
-ArrayPrefixLenType
-
-=u16;
-
-    FixedStringPadFromLeft=false ; FixedStringPadChar
-    = ' '
-
-;
-
-}
-    packet Logon
-
-{ zchar[ 5 ]
-
-Side2  ,
-    }root
-
-packet	Logout
-
-{
-repeat
-    i64 Tail
-
-    ,	Logon
-	, repeat 
-i16
-
-OrderId
-    , char[] venue  , 
-uint64 
-x
+x,} ")).
+Eval vm_compute in ("<<<M106>>>" ++ check (runes_of_ascii "MetaData Pad
+    {
+    i16 repeatCount , // c
+f32 pack `a\`,} packet//
+f32a {@lengthOf( metadata // a // b
+)match msg_type as matchKey
+    {
+00: rootA ,  }, @rightPad ( ) match repeatCount as len {
+    [/// triple
+""x y""
+// c
+//
 ,
-    repeat	i16 count
-, u8 Flags, match Flags
-    as	Body  { 25 :
-    Logon	,	}	, u16 Qty
-@calculatedFrom( ""CRC32"")
-, 
+10] : As , 42: i64_""" ++ [128512]%N ++ runes_of_ascii """	: BodyLength
+, 7
+: f32a  ,
+    }
+    ,	@lengthOf( BodyLength )	repeat Foo `line1
+line2` , } // @lengthOf(")).
+Eval vm_compute in ("<<<M240>>>" ++ check (runes_of_ascii "
+packet BodyLength { repeatCount // packet A { u8 x, }
+`// not a comment`
+,
+@lengthOf( lengthOf	)  @tag( 65535
+    )@rightPad (
+// @lengthOf(
+//	t
+'0' )/// triple
+u8 Logon , } packet chars { o msg_type , @tag( 10)zchar[ 65535
+] f32a
+,repeat char[]
+i64_
+`
+` ,} root packet f32a { @tag( 255 )repeat u8 stringy, }
+")).
+Eval vm_compute in ("<<<M1811>>>" ++ check (runes_of_ascii "MetaData T {
+    uint8 float,
+    repeatCount x,
+    char[10] asx,
+    char[00] metadata `" ++ [233]%N ++ runes_of_ascii "`,
+    u8x asx,
 }
 
-")).
-Eval vm_compute in ("<<<M101>>>" ++ check (runes_of_ascii "MetaData T {  a1 Packet,// " ++ [128512]%N ++ runes_of_ascii " emoji
-uint8x
-// @lengthOf(
-//x
-Pad `" ++ [233]%N ++ runes_of_ascii "` , a1
-    // " ++ [27880; 37322]%N ++ runes_of_ascii "
-    MetaDataX ,	zchar[00]metadata`u8 x,` ,Pad// trailing space 
-x `
-` ,
-    i8
-u8x ,
-}  options { As =
-    false;}root packet options1 { @calculatedFrom( ""// no comment"" ) @lengthOf( _x	)
-    @tag(007 ) repeat
-// trailing space 
-// @lengthOf(
-f32 i8i8
-    `" ++ [233]%N ++ runes_of_ascii "` ,
-    @rightPad	( ' '// " ++ [27880; 37322]%N ++ runes_of_ascii "
-) repeat Pad , }
-")).
-Eval vm_compute in ("<<<M1475>>>" ++ check (runes_of_ascii "options {
-    T = zchar[42]
-    options1 = uint8;
-    lengthOf = char[4294967296];
-}
-
-packet Z9_ {
-    repeat MetaDataX `crlf
+MetaData trueish {
+    charz string_ `crlf
         line`,
-    repeat string x_y_z,
-    u32 x,// `tick` ""quote"" 'q'
-    @tag(00)
-    repeat i64 Logon,
-    u8x f32a,
-    repeat lengthOf ``,
-    repeat stringy Pad `
-        `,
-    repeat string_ chars `// not a comment`,
-}")).
-Eval vm_compute in ("<<<M1636>>>" ++ check (runes_of_ascii "packet tag {
+    zchar[42] _x,
 }
 
-packet packetx {
-    @calculatedFrom(""x y"")
-    @tag(42)
-    @lengthOf(As)
-    char a1 `two words`,
-    @leftPad('\x00')
-    @tag(10)
-    @lengthOf(u)
-    char[] falsey,
-}//
+packet o {
+    char[] u8x @calculatedFrom(""abc""),
+}
 
-MetaData f32a {
-    string u128,
-    roots stringy,
-    Header body,
-    float options1 `it's`,
-    i8i8 options1 `" ++ [28040; 24687; 31867; 22411]%N ++ runes_of_ascii "`,
+options {
+    x = 255;
+    u = '0'
 }")).
-Eval vm_compute in ("<<<M182>>>" ++ check (runes_of_ascii "root packet int {match MetaDataX	as charz
-{ 255 :uint8x , 65535 : // @lengthOf(
-u128 ""\" ++ [233]%N ++ runes_of_ascii """
-:o,0123456789 : _x ""{,}"" :
-    matchKey
-// `tick` ""quote"" 'q'
-// `tick` ""quote"" 'q'
-[4294967296 ,"""" ,	10
-    ]: charz , }	, @lengthOf( roots
-) x @calculatedFrom( ""\n"" )
-    , i32
-    tag , }")).
-Eval vm_compute in ("<<<M1372>>>" ++ check (runes_of_ascii "
-options  {
-    LittleEndian
-= true
-;
-}packet
-	Logon{ 
+Eval vm_compute in ("<<<M1253>>>" ++ check (runes_of_ascii "// top
+packet // c0
+Inner // c1
+{ // c2
+u8 // c3a
+  // c3b
+a // c4
+,
+    // c5
+} // c6
+root // c7
+packet // c8a
+  // c8b
+P // c9
+{ // c10a
+  // c10b
+repeat // c11a
+  // c11b
+Inner items // c13
+, // c14
 u8
-	x	, 
-string  user, }packet  Logout	{
-
-u16  reason, } 
-packet	Empty  {} root packet
-    Frame
-{	u16
-MsgType
-,  u8 BodyLen 
-@lengthOf( Body )	, u8
-	flags, 
-Logon
-
-Body ,
-    u32	trailer
-	, } ")).
+    // c15
+x , // c17a
+  // c17b
+} // c18
+")).
 Eval vm_compute in ("<<<M1318>>>" ++ check (runes_of_ascii "packet FooBar // c1
 { u8 a ,
     // c5
@@ -844,44 +1056,85 @@ FooBar ,
     // c19
 foo_bar // c20
 , } ")).
-Eval vm_compute in ("<<<M311>>>" ++ check (runes_of_ascii "MetaData
-falsey { Header falsey
-`
-` , string Foo `" ++ [28040; 24687; 31867; 22411]%N ++ runes_of_ascii "`
-    // `tick` ""quote"" 'q'
-    ,falsey repeatCount , i8
-u , }
-packet A	{ match _x as T { 007: lengthOf// `tick` ""quote"" 'q'
-}, } 	 ")).
-Eval vm_compute in ("<<<M1876>>>" ++ check (runes_of_ascii "packet A {
-    match k as n {
-        [
-            1, 007, 5, 7, 9,
-            11, ""bb"", ""d"", ""f"", ""h"",
-            ""j"", ""l""
-        ] : B,
-        2 : C,
-    },
-}")).
-Eval vm_compute in ("<<<M1694>>>" ++ check (runes_of_ascii "root packet body {
-    repeat i8i8 `it's`,
-}
+Eval vm_compute in ("<<<M1530>>>" ++ check (runes_of_ascii "packet FooBar {
+    u8 a,
+    // c5
+}// c6
 
-packet chars {
-    @rightPad('\x00')
-    // `tick` ""quote"" 'q'
-    leftPad {
-        char[10] asx `" ++ [233]%N ++ runes_of_ascii "`,
-    },
+packet foo_bar {
+    // c9
+    u16 b,// c12a
+    // c12b
+}// c13
+
+root packet R {
+    // c17a
+    // c17b
+    FooBar,
+    // c19
+    foo_bar,
 }")).
-Eval vm_compute in ("<<<M651>>>" ++ check (runes_of_ascii "// @lengthOf(
-packet i8i8 { u128 o , }
-options { MetaDataX MetaDataX = true;
-    BodyLength =""packet"" x_y_z= 007
-crc //x
-= ""abc"" ;
-    msg_type =
-i16 }")).
+Eval vm_compute in ("<<<M1195>>>" ++ check (runes_of_ascii "// top
+packet
+    // c0
+body
+    // c1
+{
+    // c2
+i32
+    // c3
+f32a
+    // c4
+`{ , }`
+    // c5
+,
+    // c6
+}
+    // c7
+options
+    // c8
+{
+    // c9
+}
+    // c10
+")).
+Eval vm_compute in ("<<<M501>>>" ++ check (runes_of_ascii "packet uint8x
+{ match pack
+    as msg_type	{
+    0123456789 :	float
+}
+,
+} packet //	t
+a1
+    { } options {packetx
+    = '\x00' '\x00'	; u128= ""a	b""  ; }
+")).
+Eval vm_compute in ("<<<M1272>>>" ++ check (runes_of_ascii "
+options{
+LittleEndian=
+
+true; } packet
+	B	{
+u8 a
+
+    ,
+string  s, 
+}	root
+
+packet
+
+P
+
+{ u16
+    L
+    @lengthOf(
+
+    B
+)
+,
+B,
+    u8
+t ,  }")).
 Eval vm_compute in ("<<<M539>>>" ++ check (runes_of_ascii "packet uint8x
 { match pack
     as msg_type	{
@@ -893,7 +1146,7 @@ a1
     { } options {packetx
     = '\x00'	; u128= ""a	b""  ; }
 ")).
-Eval vm_compute in ("<<<M487>>>" ++ check (runes_of_ascii "packet uint8x
+Eval vm_compute in ("<<<M492>>>" ++ check (runes_of_ascii "packet uint8x
 { match pack
     as msg_type	{
     0123456789 :	float
@@ -901,243 +1154,236 @@ Eval vm_compute in ("<<<M487>>>" ++ check (runes_of_ascii "packet uint8x
 ,
 } packet //	t
 a1
-    { } options packetx{
-    = '\x00'	; u128= ""a	b""  ; }
+    { } options {=
+    packetx '\x00'	; u128= ""a	b""  ; }
 ")).
-Eval vm_compute in ("<<<M702>>>" ++ check (runes_of_ascii "// @lengthOf(
+Eval vm_compute in ("<<<M1794>>>" ++ check (runes_of_ascii "packet A {
+    match k as n {
+        [
+            ""a"", ""bb"", ""c c"", ""d"", ""e"",
+            ""f"", ""g"", ""h"", ""i""
+        ] : B,
+        2 : C,
+    },
+}")).
+Eval vm_compute in ("<<<M665>>>" ++ check (runes_of_ascii "// @lengthOf(
 packet i8i8 { u128 o , }
 options { MetaDataX = true;
     BodyLength =""packet"" x_y_z= 007
 crc //x
-= ""abc"" ""abc"" ;
+= ""abc"" ; ;
     msg_type =
 i16 }")).
-Eval vm_compute in ("<<<M661>>>" ++ check (runes_of_ascii "// @lengthOf(
-packet i8i8 { u128 o o , }
-options { MetaDataX = true;
+Eval vm_compute in ("<<<M662>>>" ++ check (runes_of_ascii "// @lengthOf(
+packet i8i8 { u128 o , }
+{ options MetaDataX = true;
     BodyLength =""packet"" x_y_z= 007
 crc //x
 = ""abc"" ;
     msg_type =
 i16 }")).
-Eval vm_compute in ("<<<M529>>>" ++ check (runes_of_ascii "packet uint8x
-{ match pack
-    as msg_type	{
-    0123456789 :	float
+Eval vm_compute in ("<<<M1705>>>" ++ check (runes_of_ascii "MetaData
+	leftPad
+    {chars MetaDataX 
+,} packet
+repeatCount {
+	char[255] 
+uint8x 	 // c
+  `" ++ [233]%N ++ runes_of_ascii "`
+    , }MetaData pack 
+{
+
+    As	Foo ,
 }
-,
-} packet //	t
-a1
-    { } options {packetx
-    = '\x00'	; u128= ""a	b""")).
-Eval vm_compute in ("<<<M98>>>" ++ check (runes_of_ascii "
-packet stringy {
-}
-MetaData u8x	{ zchar[ 65535
-    // a // b
-    ] Pad ,stringy string_
-`u8 x,` ,	u8 lengthOf`
-` , char[ 255
-] pack , } 	 ")).
-Eval vm_compute in ("<<<M1642>>>" ++ check (runes_of_ascii "packet A {
+")).
+Eval vm_compute in ("<<<M1707>>>" ++ check (runes_of_ascii "packet A {
     match k as n {
         [
-            22, 4, 66, ""a"", ""c c"",
-            ""e"", ""g""
+            ""a"", ""bb"", ""c c"", ""d"", ""e"",
+            ""f""
         ] : B,
         2 : C,
     },
 }")).
-Eval vm_compute in ("<<<M1440>>>" ++ check (runes_of_ascii "
+Eval vm_compute in ("<<<M1417>>>" ++ check (runes_of_ascii "packet A {
+    match k as n {
+        [
+            1, 22, ""c c"", 4, 5,
+            ""f""
+        ] : B,
+        2 : C,
+    },
+}")).
+Eval vm_compute in ("<<<M680>>>" ++ check (runes_of_ascii "// @lengthOf(
+packet i8i8 { u128 o , }
+options { MetaDataX = true;
+    BodyLength =""packet"" x_y_z= 007
+crc //x
+= ""abc""")).
+Eval vm_compute in ("<<<M1167>>>" ++ check (runes_of_ascii "MetaData leftPad { chars MetaDataX , } packet repeatCount { char[ 255 ] // c
+uint8x `" ++ [233]%N ++ runes_of_ascii "` , } MetaData pack { As Foo , }")).
+Eval vm_compute in ("<<<M1663>>>" ++ check (runes_of_ascii "packet Foo {
+    tag roots,
+    // `tick` ""quote"" 'q'
+    i64_,
+    @calculatedFrom(""packet"")
+    uint32 MetaDataX,
+}")).
+Eval vm_compute in ("<<<M25>>>" ++ check (runes_of_ascii "packet stringy	{
+    } // packet A { u8 x, }
 packet
-
-    A
-
-    {
-match k
-
-    as n 
-{ [  1 , 22
-,007 
-, 4	,  5
-
-,
-    66
-    ,
-7
-,  8
-]:
-
-B,
-    2
-
-:
-C
-} ,} ")).
-Eval vm_compute in ("<<<M1147>>>" ++ check (runes_of_ascii "MetaData leftPad { // c
-chars MetaDataX , } packet repeatCount { char[ 255 ] uint8x `" ++ [233]%N ++ runes_of_ascii "` , } MetaData pack { As Foo , }")).
-Eval vm_compute in ("<<<M1179>>>" ++ check (runes_of_ascii "MetaData leftPad { chars MetaDataX , } packet repeatCount { char[ 255 ] uint8x `" ++ [233]%N ++ runes_of_ascii "` , } MetaData pack // c
-{ As Foo , }")).
-Eval vm_compute in ("<<<M893>>>" ++ check (runes_of_ascii "packet A {
-  match k as n {
-    [""a"", ""bb"", ""c c"", ""d"", ""e"", ""f"", ""g"", ""h"", ""i"", ""j"", ""k""] : B,
-    2 : C
-  },
-}")).
-Eval vm_compute in ("<<<M902>>>" ++ check (runes_of_ascii "packet A {
-  match k as n {
-    [""a"", ""bb"", 007, ""d"", ""e"", 66, ""g"", ""h"", 9, ""j"", ""k""] : B
-    2 : C
-  },
-}")).
-Eval vm_compute in ("<<<M867>>>" ++ check (runes_of_ascii "packet A {
-  match k as n {
-    [""a"", ""bb"", ""c c"", ""d"", ""e"", ""f"", ""g"", ""h"", ""i""] : B,
-    2 : C
-  },
-}")).
-Eval vm_compute in ("<<<M1304>>>" ++ check (runes_of_ascii "
-packet order_item
-
-{  u8
-a
-
-    , } root
-packet
-
-    new_order{ order_item
-	,  u8
-x ,
-
-}
-
+    u128
+    { u16 len@lengthOf( u128)	,
+    //x
+    }
 ")).
-Eval vm_compute in ("<<<M389>>>" ++ check (runes_of_ascii "root packet SimpleMessage {
-    uint16 MsgType `" ++ [28040; 24687; 31867; 22411]%N ++ runes_of_ascii "`,
-    string JsonBody `Json" ++ [23383; 31526; 20018; 28040; 24687; 20307]%N ++ runes_of_ascii "`,
+Eval vm_compute in ("<<<M898>>>" ++ check (runes_of_ascii "packet A {
+  match k as n {
+    [""a"", 22, ""c c"", 4, ""e"", 66, ""g"", 8, ""i"", 10, ""k""] : B
+    2 : C
+  },
 }")).
-Eval vm_compute in ("<<<M618>>>" ++ check (runes_of_ascii "
+Eval vm_compute in ("<<<M634>>>" ++ check (runes_of_ascii "
 packet
-    asx {match u128 as lengthOf
+    asx {matc@lengthOfh u128 as lengthOf
 {
 //	t
 // `tick` ""quote"" 'q'
 255 : x ,
-    } , ,	}")).
-Eval vm_compute in ("<<<M599>>>" ++ check (runes_of_ascii "
+    } ,	}")).
+Eval vm_compute in ("<<<M573>>>" ++ check (runes_of_ascii "
 packet
-    asx {match u128 as lengthOf
+    asx {match u128 u128 as lengthOf
 {
 //	t
 // `tick` ""quote"" 'q'
-255 x : ,
+255 : x ,
     } ,	}")).
-Eval vm_compute in ("<<<M845>>>" ++ check (runes_of_ascii "packet A {
-  match k as n {
-    [""a"", 22, ""c c"", 4, ""e"", 66, ""g""] : B,
-    2 : C
-  },
-}")).
-Eval vm_compute in ("<<<M1302>>>" ++ check (runes_of_ascii "packet order_item {
+Eval vm_compute in ("<<<M563>>>" ++ check (runes_of_ascii "
+packet
+    asx { {match u128 as lengthOf
+{
+//	t
+// `tick` ""quote"" 'q'
+255 : x ,
+    } ,	}")).
+Eval vm_compute in ("<<<M281>>>" ++ check (runes_of_ascii "
+packet
+    o	{  }
+packet
+Pad {
+BodyLength // trailing space 
+, } packet metadata //x
+{}")).
+Eval vm_compute in ("<<<M1882>>>" ++ check (runes_of_ascii "
+
+  packet A {match  k
+as
+
+n
+{
+[
+
+    ""a"",
+22
+, ""c c"", 4
+, ""e"" ]
+	:B
+
+2 : C
+}
+,
+
+}
+
+")).
+Eval vm_compute in ("<<<M567>>>" ++ check (runes_of_ascii "
+packet
+    asx { u128 as lengthOf
+{
+//	t
+// `tick` ""quote"" 'q'
+255 : x ,
+    } ,	}")).
+Eval vm_compute in ("<<<M1305>>>" ++ check (runes_of_ascii "packet orderItem {
     u8 a,
 }
-root packet new_order {
-    order_item,
+root packet newOrder {
+    orderItem,
     u8 x,
 }
 ")).
-Eval vm_compute in ("<<<M831>>>" ++ check (runes_of_ascii "packet A {
+Eval vm_compute in ("<<<M817>>>" ++ check (runes_of_ascii "packet A {
   match k as n {
-    [1, ""bb"", 007, ""d"", 5, ""f""] : B
+    [1, ""bb"", 007, ""d"", 5] : B,
     2 : C
   },
 }")).
-Eval vm_compute in ("<<<M903>>>" ++ check (runes_of_ascii "packet A { Inner { match k as n { [1,22,007,4,5,66,7,8,9,10,11] : B, }, }, }")).
-Eval vm_compute in ("<<<M1820>>>" ++ check (runes_of_ascii "packet  A  {	B
-
-    { 	 // a
-
-u8
-x
-, 	 // b
-  }	// c
-    ,	// d
-  }
-")).
+Eval vm_compute in ("<<<M813>>>" ++ check (runes_of_ascii "packet A {
+  match k as n {
+    [1, 22, 007, 4, 5] : B,
+    2 : C
+  },
+}")).
 Eval vm_compute in ("<<<M791>>>" ++ check (runes_of_ascii "packet A {
   match k as n {
     [1, ""bb"", 007] : B,
     2 : C
   },
 }")).
-Eval vm_compute in ("<<<M1127>>>" ++ check (runes_of_ascii "// top
-MetaData
-    // c0
-u
-    // c1
-{ // c2a
-  // c2b
-} // c3
-")).
-Eval vm_compute in ("<<<M1102>>>" ++ check (runes_of_ascii "// top
-MetaData
-    // c0
-tag
-    // c1
-{ // c2
+Eval vm_compute in ("<<<M534>>>" ++ check (runes_of_ascii "packet uint8x
+{ match pack
+    as msg_type	{
+    0123456789 :	")).
+Eval vm_compute in ("<<<M1287>>>" ++ check (runes_of_ascii "root packet P {
+    repeat string ss,
+    repeat u16 ns,
 }
-    // c3
 ")).
-Eval vm_compute in ("<<<M1245>>>" ++ check (runes_of_ascii "root
-    packet	P
-{repeat
+Eval vm_compute in ("<<<M148>>>" ++ check (runes_of_ascii "options
+{
+    a1	=""packet""// a // b
+; } // @lengthOf(")).
+Eval vm_compute in ("<<<M1212>>>" ++ check (runes_of_ascii "packet body { i32 f32a `{ , }` ,
+// c
+} options { }")).
+Eval vm_compute in ("<<<M347>>>" ++ check (runes_of_ascii "packet As{
+/// triple
+// packet A { u8 x, }
+}
 
-char 
-cs  ,u8
-
-    x ,} ")).
-Eval vm_compute in ("<<<M1213>>>" ++ check (runes_of_ascii "packet body { i32 f32a `{ , }` , } // c
-options { }")).
-Eval vm_compute in ("<<<M1515>>>" ++ check (runes_of_ascii "  // top
-
-packet 	 // c0
-  	x 
-{// c2
-	}
-// c3")).
-Eval vm_compute in ("<<<M1066>>>" ++ check (runes_of_ascii "packet A {
-    u8 x,    // c    u8 y,
-}")).
-Eval vm_compute in ("<<<M1081>>>" ++ check (runes_of_ascii "options { a = 1; // a
- b = 2 // b
- }")).
-Eval vm_compute in ("<<<M1673>>>" ++ check (runes_of_ascii "packet A {
-    u8 x `d" ++ [133]%N ++ runes_of_ascii "`,// c" ++ [133]%N ++ runes_of_ascii "
-}")).
-Eval vm_compute in ("<<<M1076>>>" ++ check (runes_of_ascii "MetaData M {
+")).
+Eval vm_compute in ("<<<M1773>>>" ++ check (runes_of_ascii "options {
+    a1 = ""packet"";
+}// @lengthOf(")).
+Eval vm_compute in ("<<<M1075>>>" ++ check (runes_of_ascii "MetaData M {
 }// c
-packet A {}")).
-Eval vm_compute in ("<<<M1798>>>" ++ check (runes_of_ascii "
+MetaData N {
+}// d")).
+Eval vm_compute in ("<<<M1774>>>" ++ check (runes_of_ascii "  packet Z9_	{	}
 
-  packet
-
-A {}	// c" ++ [65279]%N ++ runes_of_ascii "
- 
-")).
-Eval vm_compute in ("<<<M63>>>" ++ check (runes_of_ascii "packet i64_
-    { }
-
-")).
-Eval vm_compute in ("<<<M1061>>>" ++ check (runes_of_ascii "packet A {
-}
-// c x")).
-Eval vm_compute in ("<<<M1016>>>" ++ check (runes_of_ascii "packet A {
-}
-// c" ++ [8233]%N)).
-Eval vm_compute in ("<<<M984>>>" ++ check (runes_of_ascii "packet A {
-}// c" ++ [160]%N)).
-Eval vm_compute in ("<<<M566>>>" ++ check (runes_of_ascii "
 packet
-    asx")).
-Eval vm_compute in ("<<<M741>>>" ++ check ([65533; 65533]%N ++ runes_of_ascii "1" ++ [65533]%N ++ runes_of_ascii "dcV")).
-Eval vm_compute in ("<<<M1442>>>" ++ check (runes_of_ascii "// c")).
+Pad
+{  }")).
+Eval vm_compute in ("<<<M988>>>" ++ check (runes_of_ascii "packet A {
+ u8 x `d" ++ [160]%N ++ runes_of_ascii "`, // c" ++ [160]%N ++ runes_of_ascii "
+}")).
+Eval vm_compute in ("<<<M1486>>>" ++ check (runes_of_ascii "
+
+  packet A { }
+	    // c" ++ [5760]%N)).
+Eval vm_compute in ("<<<M268>>>" ++ check (runes_of_ascii " // packet A { u8 x, }")).
+Eval vm_compute in ("<<<M1706>>>" ++ check (runes_of_ascii "packet
+
+    A
+{ } ")).
+Eval vm_compute in ("<<<M744>>>" ++ check (runes_of_ascii "`" ++ [28040; 24687; 31867; 22411]%N ++ runes_of_ascii "` '0' options")).
+Eval vm_compute in ("<<<M1056>>>" ++ check (runes_of_ascii "packet A {
+}
+// c" ++ [6158]%N)).
+Eval vm_compute in ("<<<M1226>>>" ++ check (runes_of_ascii "packet // c
+x { }")).
+Eval vm_compute in ("<<<M99>>>" ++ check (runes_of_ascii "
+ // " ++ [128512]%N ++ runes_of_ascii " emoji")).
+Eval vm_compute in ("<<<M980>>>" ++ check (runes_of_ascii "// c" ++ [12288]%N)).
+Eval vm_compute in ("<<<M745>>>" ++ check ([65533]%N ++ runes_of_ascii "1")).
